@@ -461,3 +461,172 @@ def check_C08(tier: str, seed: int) -> int:
     cov["distinct_nontrivial"] = cov.get("behaviours_replayed", 0)
     cov["trusted_base"] = ["TLC 1.8 / SANY", "CommunityModules Json", "harness/memguard.py (statement spelling, flag observation)"]
     return out.finish()
+
+
+# ----------------------------------------------------------------------------- C16: nnet layers (decision tables)
+def check_C16(tier: str, seed: int) -> int:
+    import shutil
+    import tempfile
+    from concurrent.futures import ThreadPoolExecutor
+
+    from . import layers
+
+    out = core.Outcome("C16", tier, seed, "model_checking")
+    quick = tier == "quick"
+    spec = os.path.join(tlc.SPEC, "tables", "Layers.tla")
+    #          kind      MaxX MaxW MaxS MaxD MaxP
+    bounds = [("sw1", 6, 3, 3, 3, 0), ("sw2", 4, 2, 2, 2, 0), ("conv1", 6, 3, 3, 2, 2), ("conv2", 3, 2, 2, 2, 1),
+              ("pool1", 6, 3, 3, 1, 0), ("pool2", 4, 2, 2, 1, 0)] if quick else \
+             [("sw1", 9, 4, 4, 3, 0), ("sw2", 5, 3, 2, 2, 0), ("conv1", 8, 3, 3, 3, 2), ("conv2", 4, 2, 2, 2, 1),
+              ("pool1", 9, 4, 4, 1, 0), ("pool2", 5, 3, 3, 1, 0)]
+    scratch = tempfile.mkdtemp(prefix="verif-lay-")
+    results = {}
+
+    def work(b):
+        kind, mx, mw, ms, md, mp = b
+        cfg = os.path.join(scratch, f"{kind}.cfg")
+        with open(cfg, "w") as f:
+            f.write(f'SPECIFICATION Spec\nCONSTANTS\n  Kind = "{kind}"\n  MaxX = {mx}\n  MaxW = {mw}\n  MaxS = {ms}\n'
+                    f"  MaxD = {md}\n  MaxP = {mp}\nINVARIANT InBounds\nINVARIANT Formula\nINVARIANT AcceptsExactly\n"
+                    "INVARIANT ConvAcceptsExactly\nINVARIANT Emit\nCHECK_DEADLOCK FALSE\n")
+        results[kind] = tlc.run_tlc(spec, cfg, workers=1, timeout=3000, heap="4g")
+
+    try:
+        with ThreadPoolExecutor(max_workers=6) as ex:
+            list(ex.map(work, bounds))
+        total = agree = 0
+        per_kind = {}
+        out.coverage["states"] = 0
+        out.coverage["transitions"] = 0
+        for b in bounds:
+            kind = b[0]
+            rc, o, wall = results[kind]
+            st = tlc.parse_stats(o)
+            if rc != 0 or st is None:
+                out.machinery(f"Layers.tla ({kind}) failed, rc={rc}: {o[-1200:]}")
+                continue
+            items, bad = replay.parse_behaviours(o)
+            if bad or len(items) != st["distinct"]:
+                out.machinery(f"Layers.tla ({kind}): {bad} unparsable lines, {len(items)} of {st['distinct']} configurations emitted")
+            out.coverage["states"] += st["distinct"]
+            out.coverage["transitions"] += st["generated"]
+            out.judged += len(items)
+            nb = nkf = 0
+            for it in items:
+                total += 1
+                r = layers.run_config(it)
+                if r is None:
+                    agree += 1
+                    continue
+                what, pred, obs, variant = r
+                kf = it["expected"].get("kf") or ""
+                if kf and what == "accept" and out.open_kf(kf):
+                    out.kf_hit(kf)
+                    nkf += 1
+                    continue
+                nb += 1
+                out.violation({"kind": "layers-table", "config": it["cfg"], "variant": variant, "what": what,
+                               "predicted": pred, "observed": obs},
+                              f"{it['cfg']['kind']} configuration {json.dumps(it['cfg'])}: {what}: table says {pred}, "
+                              f"code gives {obs} ({variant} input)")
+            per_kind[kind] = {"bounds": dict(zip(("MaxX", "MaxW", "MaxS", "MaxD", "MaxP"), b[1:])),
+                              "configurations": len(items), "disagree": nb, "known_finding": nkf}
+            if items:
+                out.add_sample({"kind": kind, "config": items[len(items) // 2]["cfg"],
+                                "expected_accept": items[len(items) // 2]["expected"]["accept"]}, limit=6)
+        out.coverage["exhaustive"] = True
+        out.coverage["configurations_executed"] = total
+        out.coverage["configurations_agreeing"] = agree
+        out.coverage["per_kind"] = per_kind
+        out.coverage["traces_validated_against_impl"] = total
+    except tlc.MachineryError as e:
+        out.machinery(str(e)[:3000])
+    finally:
+        shutil.rmtree(scratch, ignore_errors=True)
+    out.assumptions += ["integer-valued fillers: float64 arithmetic is exact, values compared with ==",
+                        "softmax / losses / batchnorm / GRU numerics are outside this table (DESIGN section 9)"]
+    cov = out.coverage
+    cov["rule"] = ("every configuration of spec/tables/Layers.tla within the stated bounds (TLC initial states, exhaustive) is "
+                   "executed twice (contiguous and strided input); distinct = distinct configurations")
+    cov["evaluations"] = cov.get("configurations_executed", 0)
+    cov["distinct_nontrivial"] = cov.get("configurations_executed", 0)
+    cov["trusted_base"] = ["TLC 1.8 / SANY", "CommunityModules Json", "harness/layers.py"]
+    return out.finish()
+
+
+# ----------------------------------------------------------------------------- C17 / C18: construction tables
+def _table_check(prop: str, tier: str, seed: int, tables, runner_name: str, rule: str):
+    import shutil
+    import tempfile
+
+    from . import construct
+    from .driver import reset_global_state
+
+    out = core.Outcome(prop, tier, seed, "model_checking")
+    spec = os.path.join(tlc.SPEC, "tables", "Construct.tla")
+    scratch = tempfile.mkdtemp(prefix="verif-tab-")
+    try:
+        out.coverage["states"] = out.coverage["transitions"] = 0
+        total = agree = 0
+        per = {}
+        for t in tables:
+            cfg = os.path.join(scratch, f"{t}.cfg")
+            with open(cfg, "w") as f:
+                f.write(f'SPECIFICATION Spec\nCONSTANTS\n  Table = "{t}"\n' + "".join(
+                    f"INVARIANT {i}\n" for i in ("CopyByDefault", "ReuseWhenPossible", "AstensorIdentity", "Detached",
+                                                 "RejectNonReal", "RoundTrip", "Emit")) + "CHECK_DEADLOCK FALSE\n")
+            rc, o, wall = tlc.run_tlc(spec, cfg, workers=1, timeout=1200)
+            st = tlc.parse_stats(o)
+            if rc != 0 or st is None:
+                out.machinery(f"Construct.tla ({t}) failed rc={rc}: {o[-1500:]}")
+                continue
+            items, bad = replay.parse_behaviours(o)
+            if bad or len(items) != st["distinct"]:
+                out.machinery(f"Construct.tla ({t}): {bad} unparsable, {len(items)}/{st['distinct']} cells emitted")
+            out.coverage["states"] += st["distinct"]
+            out.coverage["transitions"] += st["generated"]
+            out.judged += len(items)
+            nb = 0
+            for n, it in enumerate(items):
+                reset_global_state()
+                total += 1
+                if t in ("construct", "convert"):
+                    r = construct.run_construct(it)
+                elif t == "saveload":
+                    r = construct.run_saveload(it, scratch, n)
+                else:
+                    r = construct.run_creation(it)
+                if r is None:
+                    agree += 1
+                    continue
+                nb += 1
+                out.violation({"kind": "construct-table", "table": t, "cell": it["cell"], "field": r[0],
+                               "predicted": r[1], "observed": r[2]},
+                              f"{t} cell {json.dumps(it['cell'])}: {r[0]}: table says {r[1]!r}, code gives {r[2]!r}")
+            per[t] = {"cells": len(items), "disagree": nb}
+            if items:
+                out.add_sample({"table": t, "cell": items[len(items) // 3]["cell"], "expected": items[len(items) // 3]["expected"]}, limit=5)
+        reset_global_state()
+        out.coverage.update({"exhaustive": True, "cells_executed": total, "cells_agreeing": agree, "per_table": per,
+                             "traces_validated_against_impl": total})
+    except tlc.MachineryError as e:
+        out.machinery(str(e)[:3000])
+    finally:
+        shutil.rmtree(scratch, ignore_errors=True)
+    cov = out.coverage
+    cov["rule"] = rule
+    cov["evaluations"] = cov.get("cells_executed", 0)
+    cov["distinct_nontrivial"] = cov.get("cells_executed", 0)
+    cov["trusted_base"] = ["TLC 1.8 / SANY", "CommunityModules Json", "harness/construct.py", "NumPy (creation routines: three-way)"]
+    return out.finish()
+
+
+def check_C17(tier: str, seed: int) -> int:
+    return _table_check("C17", tier, seed, ["construct", "convert", "creation"], "construct",
+                        "every cell of the construction / conversion / creation tables of spec/tables/Construct.tla (TLC initial "
+                        "states, exhaustive) executed once, plus the later-mutation probe; distinct = distinct cells")
+
+
+def check_C18(tier: str, seed: int) -> int:
+    return _table_check("C18", tier, seed, ["saveload"], "saveload",
+                        "every cell of the save/load table (dtype x shape x constant x gradient presence x path kind), exhaustive")
